@@ -17,7 +17,7 @@ PROPS = {
              "thorough": [("MsgQueue_mid", "MsgQueue_mid.cfg", MQ), ("MsgQueue_thorough", "MsgQueue_thorough.cfg", MQ)]},
         dev=[("MsgQueue_dev_F2", "MsgQueue_dev_F2.cfg", MQ, "NoLostWakeup")],
         family="C07", drivers=["d1"], mech=("queue", "T_MsgQueue.tla", "T_MsgQueue.cfg"),
-        passes={"quick": [("mix", 8, None)], "thorough": [("mix", 60, None), ("delay", 2, 400)]},
+        passes={"quick": [("mix", 8, None), ("demote", 600, 40)], "thorough": [("mix", 60, None), ("delay", 2, 400), ("demote", 1500, 200)]},
         nontrivial=r'"ev":"RecvRet".*"res":"req"',
         rule="scenarios: receiver combinations x request timing (family C07); distinct = distinct observable traces (events incl. virtual time); non-trivial = at least one request was delivered by a receive call",
     ),
@@ -26,7 +26,7 @@ PROPS = {
              "thorough": [("MsgQueue_mid", "MsgQueue_mid.cfg", MQ), ("MsgQueue_thorough", "MsgQueue_thorough.cfg", MQ)]},
         dev=[("MsgQueue_dev_F2", "MsgQueue_dev_F2.cfg", MQ, "NoLostWakeup")],
         family="C17", drivers=["d1"], mech=("queue", "T_MsgQueue.tla", "T_MsgQueue.cfg"),
-        passes={"quick": [("mix", 8, None)], "thorough": [("mix", 60, None), ("delay", 2, 400)]},
+        passes={"quick": [("mix", 8, None), ("demote", 600, 40)], "thorough": [("mix", 60, None), ("delay", 2, 400), ("demote", 1500, 200)]},
         nontrivial=r'"ev":"Unblock"',
         rule="scenarios: receiver combinations x unblock instants x request instants (family C17); distinct = distinct observable traces; non-trivial = at least one unblock() call before teardown or a timed receive returning",
     ),
@@ -35,7 +35,7 @@ PROPS = {
              "thorough": [("TaskPool_quick", "TaskPool_quick.cfg", TP), ("TaskPool_thorough", "TaskPool_thorough.cfg", TP)]},
         dev=[("TaskPool_dev_F3", "TaskPool_dev_F3.cfg", TP, "NoStarve")],
         family="C08", drivers=["d1"], mech=("pool", "T_TaskPool.tla", "T_TaskPool.cfg"),
-        passes={"quick": [("mix", 10, None)], "thorough": [("mix", 80, None), ("delay", 2, 300)]},
+        passes={"quick": [("mix", 10, None), ("demote", 300, 12)], "thorough": [("mix", 80, None), ("delay", 2, 300), ("demote", 1500, 60)]},
         nontrivial=r'"ev":"COpen","c":4,',
         rule="scenarios: N simultaneous keep-alive connections, burst / stalled / held / staggered / waves around the idle period (family C08); distinct = distinct observable traces; non-trivial = at least 5 connections open at once (more than the pool minimum)",
     ),
@@ -44,7 +44,7 @@ PROPS = {
              "thorough": [("TaskPool_c20_quick", "TaskPool_c20_quick.cfg", TP), ("TaskPool_c20_thorough", "TaskPool_c20_thorough.cfg", TP)]},
         dev=[],
         family="C20", drivers=["d1"], mech=("pool", "T_TaskPool.tla", "T_TaskPool.cfg"),
-        passes={"quick": [("mix", 6, None)], "thorough": [("mix", 60, None), ("delay", 1, 100)]},
+        passes={"quick": [("mix", 6, None), ("demote", 300, 8)], "thorough": [("mix", 60, None), ("delay", 1, 100), ("demote", 1500, 40)]},
         nontrivial=r'"ev":"(Probe|ServerDrop)"',
         rule="scenarios: bursts followed by idle periods with thread-count probes; server drop with held requests and later connects (family C20); distinct = distinct observable traces",
     ),
@@ -52,8 +52,8 @@ PROPS = {
         tlc={"quick": [("WriterChain_quick", "WriterChain_quick.cfg", WC)],
              "thorough": [("WriterChain_quick", "WriterChain_quick.cfg", WC), ("WriterChain_thorough", "WriterChain_thorough.cfg", WC)]},
         dev=[("WriterChain_dev_F1", "WriterChain_dev_F1.cfg", WC, "OrderInv"), ("WriterChain_dev_flush", "WriterChain_dev_flush.cfg", WC, "OrderInv")],
-        family="C01", drivers=["d1"],
-        passes={"quick": [("mix", 12, None), ("delay", 1, 40)], "thorough": [("mix", 40, None), ("delay", 2, 400)]},
+        family="C01", drivers=["d1"], mech=("writer", "T_WriterChain.tla", "T_WriterChain.cfg"),
+        passes={"quick": [("mix", 12, None), ("delay", 1, 40), ("demote", 400, 30)], "thorough": [("mix", 40, None), ("delay", 2, 400), ("demote", 1500, 150)]},
         nontrivial=r'"ev":"CFrame".*"k":1,',
         rule="scenarios: 2-3 pipelined requests x answer plans (respond sizes around the 1 KiB buffer / chunked / raw writer parts x flush / unused writer / drop / panic) x {own thread each, one thread in arrival order} (family C01); distinct = distinct observable traces; non-trivial = at least two response frames reached the client",
     ),
@@ -61,8 +61,8 @@ PROPS = {
         tlc={"quick": [("WriterChain_quick", "WriterChain_quick.cfg", WC)],
              "thorough": [("WriterChain_quick", "WriterChain_quick.cfg", WC), ("WriterChain_thorough", "WriterChain_thorough.cfg", WC)]},
         dev=[("WriterChain_dev_F5", "WriterChain_dev_F5.cfg", WC, "EveryoneFinishes")],
-        family="C06", drivers=["d1", "d2"], d2={"quick": (60, 1), "thorough": (300, 2)},
-        passes={"quick": [("mix", 12, None), ("delay", 1, 40)], "thorough": [("mix", 40, None), ("delay", 2, 400)]},
+        family="C06", drivers=["d1", "d2"], d2={"quick": (60, 1), "thorough": (300, 2)}, mech=("writer", "T_WriterChain.tla", "T_WriterChain.cfg"),
+        passes={"quick": [("mix", 12, None), ("delay", 1, 40), ("demote", 400, 30)], "thorough": [("mix", 40, None), ("delay", 2, 400), ("demote", 1500, 150)]},
         nontrivial=r'"how":"(drop|panic)"',
         rule="as C01; non-trivial = the execution contains a dropped or panicking handler",
     ),
@@ -134,7 +134,18 @@ def driver_bin(d):
 def run_passes(prop, scs, passes, seed, wdir):
     files = []
     for pi, (sched, a, b) in enumerate(passes):
-        if sched == "delay":
+        if sched == "demote":
+            # systematic single demotion (a = executions per scenario at most, b = scenarios at most): the scenarios the
+            # family marks for it, else a sample
+            rng = random.Random("%s/demote/%d" % (prop, seed))
+            sub = [s_ for s_ in scs if "demote" in s_.get("tags", [])]
+            if not sub:
+                sub = scs
+            if len(sub) > b:
+                sub = rng.sample(sub, b)
+            extra = ["--sched", "demote", "--max-execs", str(a)]
+            files += vlib.run_driver(vlib.D1, sub, os.path.join(wdir, "traces"), "p%d" % pi, extra)
+        elif sched == "delay":
             rng = random.Random("%s/delay/%d" % (prop, seed))
             sub = scs if len(scs) <= 60 else rng.sample(scs, 60)
             extra = ["--sched", "delay", "--bound", str(a), "--max-execs", str(b)]
@@ -205,7 +216,21 @@ def run_check(prop, tier, seed):
         fn = mechtrace.queue_events if kind == "queue" else mechtrace.pool_events
         mex = []
         unmapped = 0
+        seen_chains = {}
         for x in reps:
+            if kind == "writer":
+                # one chain of writers per connection; every distinct chain history is validated once
+                for ci, evs in enumerate(mechtrace.writer_chains(ex[x])):
+                    if evs is None:
+                        unmapped += 1
+                        continue
+                    key = json.dumps(evs, sort_keys=True)
+                    if key in seen_chains:
+                        seen_chains[key] += 1
+                    else:
+                        seen_chains[key] = 1
+                        mex.append(("%s/chain%d" % (x, ci), evs))
+                continue
             evs = fn(ex[x])
             if evs is None:
                 unmapped += 1
@@ -219,6 +244,9 @@ def run_check(prop, tier, seed):
                 walks["behaviours_generated_by_tlc"], walks["conform"], walks["actions_executed_on_the_real_code"]))
         fidelity = {"spec_to_impl_walks": walks, "mechanism_spec": mspec, "executions": len(mex), "accepted": acc, "divergences": div[:10],
                     "n_divergences": len(div), "unmappable": unmapped, "marker_events": sum(len(e) for _, e in mex)}
+        if kind == "writer":
+            fidelity["chains_observed"] = sum(seen_chains.values())
+            fidelity["distinct_chain_histories"] = len(seen_chains)
         log("[mech] %d/%d executions are behaviours of %s (%d marker events, %d divergences)" % (acc, len(mex), mspec, fidelity["marker_events"], len(div)))
     # 3b. second, hook-free path: the same scenarios over real TCP / UNIX sockets (ordinary build)
     d2info = None
